@@ -66,8 +66,39 @@ func commandStyleFirst(v *ast.CallExpr) {
 			// `f().g` is not a call statement for the compiler, `f().g()` is
 			return
 		}
+		if !startsWithIdent(v.Fun) {
+			// `(x).f 1`, `[]int{1}.f 1`, `"s".f 1` do not parse as commands
+			return
+		}
 		if v.NoParenEnd == token.NoPos {
 			v.NoParenEnd = v.Rparen
+		}
+	}
+}
+
+// startsWithIdent reports whether the leftmost operand of x is an identifier.
+func startsWithIdent(x ast.Expr) bool {
+	for {
+		switch v := x.(type) {
+		case *ast.Ident:
+			return true
+		case *ast.SelectorExpr:
+			x = v.X
+		case *ast.CallExpr:
+			x = v.Fun
+		case *ast.IndexExpr:
+			x = v.X
+		case *ast.SliceExpr:
+			x = v.X
+		case *ast.TypeAssertExpr:
+			x = v.X
+		case *ast.CompositeLit:
+			if v.Type == nil {
+				return false
+			}
+			x = v.Type
+		default:
+			return false
 		}
 	}
 }
